@@ -7,6 +7,8 @@
  *
  * mode=sched  case = one schedule of the position sweep's table (k = 0, nothing is consumed by echsq)
  * mode=fields case = (subset of <= maxsub or >= minfull event-level properties, calendar defaults none|all)
+ * mode=umask  case = (X-ECHS-UMASK value 0..0777 | absent, spelling with / without leading 0, umask of the submitting
+ *             process 027 | 0 | 077): a written mask is submitted as written, an absent one as the process umask
  */
 #include "echsq.c"
 #include "vdrv.h"
@@ -17,6 +19,7 @@
 #define HUMASK	027
 
 static int srcfd = -1, tgtfd = -1;
+static int proc_umask = HUMASK;	/* the umask of this process = what echsq fills in for an event without X-ECHS-UMASK */
 
 static int
 tmpfd(void)
@@ -98,7 +101,7 @@ one(const char *text, const char *sched, const char *kind, const struct clo_s *a
 	/* echsq's client-side defaults */
 	if (xa.wd == NULL) xa.wd = HCWD;
 	if (xa.sh == NULL) xa.sh = "/bin/sh";
-	if (xa.umask < 0) xa.umask = HUMASK;
+	if (xa.umask < 0) xa.umask = proc_umask;
 	(void)um;
 	na = c05_drain(a->strm, oa, C05_MAXOCC, &ma);
 	if (nb != 1U) {
@@ -202,6 +205,39 @@ enumerate(void)
 				}
 			}
 		}
+		return;
+	}
+	if (!strcmp(vd_opt("mode", "sched"), "umask")) {
+		static const int pum[] = {027, 0, 077};
+		for (int v = -1; v <= 0777 && !vd_stop(); v++) {
+			for (int sp = 0; sp < (v < 0 ? 1 : 2); sp++) {
+				for (int pi = 0; pi < 3; pi++) {
+					const char *cls = v < 0 ? "absent" : v == 0 ? "0" : v == 0777 ? "0777" : v == 0776 ? "0776" : v < 8 ? "one-digit" : "other";
+					struct clo_s c = {"echsq-umask", NULL, cls};
+					char sched[128];
+					if (!vd_next()) {
+						continue;
+					}
+					vd_shape("echsq-umask/%s", cls);
+					vd_sh->evals++;
+					proc_umask = pum[pi];
+					(void)umask((mode_t)proc_umask);
+					if (v < 0) {
+						snprintf(sched, sizeof(sched), "DTSTART:20300101T000000Z\nRRULE:FREQ=DAILY;COUNT=3\n");
+						vd_desc("echsq add of an event without X-ECHS-UMASK, umask of the process 0%o", (unsigned)proc_umask);
+					} else {
+						snprintf(sched, sizeof(sched), sp ? "DTSTART:20300101T000000Z\nRRULE:FREQ=DAILY;COUNT=3\nX-ECHS-UMASK:%o\n" :
+							 "DTSTART:20300101T000000Z\nRRULE:FREQ=DAILY;COUNT=3\nX-ECHS-UMASK:0%o\n", (unsigned)v);
+						vd_desc("echsq add of an event with X-ECHS-UMASK:%s%o, umask of the process 0%o", sp ? "" : "0", (unsigned)v, (unsigned)proc_umask);
+						vd_nontrivial();
+					}
+					c05_fields_text(text, sizeof(text), "c05-echsq@verif", (1U << F_SUMM) | (1U << F_LOC), 0, 0, 0, sched);
+					(void)one(text, sched, "umask", &c);
+				}
+			}
+		}
+		proc_umask = HUMASK;
+		(void)umask(HUMASK);
 		return;
 	}
 	c05_for_schedules(1, (int)vd_opt_l("gram", 1), (int)vd_opt_l("maxparts", 1), (int)vd_opt_l("menucap", 1),
